@@ -468,7 +468,7 @@ pub fn at_position(ctx: &mut Ctx, s: &Session, l1: &[Mv], game_tf: &ThreeFold) -
             }
         };
         for _ in 0..n {
-            op(Op::Search, || heavy.add(target));
+            op(Op::History, || heavy.add(target));
         }
     }
     let (tf, use_hist) = if heavy_used { (&heavy, true) } else { (tf, use_hist) };
